@@ -68,6 +68,11 @@ fn main() {
         pr.raw_block(&read(&path), "spec", &path, None);
     }
 
+    if let Some(pre) = unit["preamble"].as_array() {
+        for l in pre {
+            pr.raw_line(l.as_str().unwrap(), "glue");
+        }
+    }
     let cfg = rules::Config::from_unit(&unit);
 
     // ---- extracted sources ----
@@ -75,8 +80,13 @@ fn main() {
         let rel = src["file"].as_str().unwrap_or_else(|| die("source without file"));
         let path = format!("{}/{}", repo, rel);
         let text = read(&path);
-        let file = syn::parse_file(&text)
+        let mut file = syn::parse_file(&text)
             .unwrap_or_else(|e| die(&format!("{}: rust parse error: {}", rel, e)));
+        // R-macro: instantiate one macro_rules! body with the given arguments and select from it
+        if let Some(mname) = src["macro"].as_str() {
+            file = select::instantiate_macro(&file, mname, &src["args"], rel);
+            *rules_fired.entry("R-macro-inst".to_string()).or_insert(0) += 1;
+        }
         let module = src["mod"].as_str();
         if let Some(m) = module {
             pr.raw_line(&format!("pub mod {} {{", m), "glue");
